@@ -43,6 +43,15 @@ func c23Gen(rng *core.Rng, tier string) *harness.Plan {
 	variants := 1 + rng.IntN(3)
 	p.Params["payloads"] = int64(payloads)
 	p.Params["variants"] = int64(variants)
+	if rng.Chance(0.35) {
+		// concurrent mode (rig R3c): rounds of overlapping cache calls, see c23conc.go
+		p.Params["conc"] = 1
+		p.Params["rounds"] = int64(5 + rng.IntN(8))
+		if tier == "thorough" {
+			p.Params["rounds"] = int64(8 + rng.IntN(30))
+		}
+		return p
+	}
 	n := 20 + rng.IntN(120)
 	if tier == "thorough" {
 		n = 50 + rng.IntN(400)
@@ -81,6 +90,9 @@ func c23Gen(rng *core.Rng, tier string) *harness.Plan {
 }
 
 func c23Exec(p *harness.Plan) *harness.Outcome {
+	if p.P("conc", 0) == 1 {
+		return c23Conc(p)
+	}
 	out := harness.NewOutcome()
 	f, err := storerig.NewFix(7)
 	if err != nil {
